@@ -220,6 +220,24 @@ def install_seams():
 # ---------------------------------------------------------------------------
 # scenario execution
 # ---------------------------------------------------------------------------
+def _refused_by_chi(e):
+    """ValueError / TypeError raised inside chi under a zoo.build_* frame."""
+    if not isinstance(e, (ValueError, TypeError)):
+        return False
+    tb = e.__traceback__
+    in_build = False
+    last = None
+    while tb is not None:
+        code = tb.tb_frame.f_code
+        if code.co_filename.endswith('zoo.py') and code.co_name.startswith(
+                'build_'):
+            in_build = True
+        last = code.co_filename
+        tb = tb.tb_next
+    return in_build and last is not None and (
+        os.sep + 'chi' + os.sep) in last
+
+
 def execute(mod, scenario, keep_events=False):
     """
     Runs one scenario against the real code.  Returns a dict:
@@ -263,7 +281,14 @@ def execute(mod, scenario, keep_events=False):
     except BaseException as e:
         if isinstance(e, (KeyboardInterrupt, SystemExit)):
             raise
-        res.update(status='harness_error', detail=traceback.format_exc()[-3000:])
+        if _refused_by_chi(e):
+            # chi's own input validation refuses an object of the recipe
+            # while the harness builds it: nothing to observe in this run
+            w.probe('composition_refused_by_chi')
+            res['cov'] = {}
+        else:
+            res.update(status='harness_error',
+                       detail=traceback.format_exc()[-3000:])
     finally:
         if use_alarm:
             signal.setitimer(signal.ITIMER_REAL, 0)
